@@ -127,7 +127,7 @@ def chain_case(draw, max_decaying=6, max_daughters=4, max_mult=3, names=None, bf
                 d = draw(st.sampled_from(stable))
             mult = draw(st.sampled_from((1, 1, 1, 2, max_mult)))
             ds += [d] * mult
-        b = draw(st.floats(1e-6, 1.0, allow_nan=False)) if bf else 1.0
+        b = draw(st.one_of(st.floats(1e-6, 1.0, allow_nan=False), st.sampled_from((1.0, 0.0, 0.5, 1e-12)))) if bf else 1.0
         md = draw(meta) if meta is not None else {}
         decays.append([m, b, ds, md])
     # make every decaying particle reachable: attach unreachable ones to a random reachable ancestor of higher rank
